@@ -190,7 +190,7 @@ theorem c13_noavail_holds {s : St} (h : Reach s) (op : Op) :
   · have hna' : anyAvail (step s op).1.eps = false := by simpa using hna
     simp only [hna', Bool.false_eq_true, ↓reduceIte]
     cases step_shape hi op with
-    | idle he hc _ _ =>
+    | idle he hc _ _ _ =>
       have : s.current ∈ ids (step s op).1.eps := by
         rw [he]; simpa using findEp_isSome_iff.mpr hi.curMem
       simp [this, hc]
@@ -229,7 +229,7 @@ theorem c14_stays_holds {s : St} (h : Reach s) (op : Op) :
     · simp only [hcond, ↓reduceIte, beq_iff_eq]
       simp only [Bool.and_eq_true, beq_iff_eq, Bool.not_eq_true'] at hcond
       cases step_shape hi op with
-      | idle _ hcur _ _ => exact hcur
+      | idle _ hcur _ _ _ => exact hcur
       | muc s1 hb hc1 _ _ heq =>
         have hf := muc_fields s1
         rw [heq, hf.1] at hc hcond
@@ -275,7 +275,7 @@ theorem c14_no_preempt_holds {s : St} (h : Reach s) (op : Op) :
       · simp [hst]
       · have hgoal : (step s op).1.current = s.current ∨ isApiCall op = false := by
           cases step_shape hi op with
-          | idle _ hcur _ _ => exact Or.inl hcur
+          | idle _ hcur _ _ _ => exact Or.inl hcur
           | muc s1 hb hc1 _ hd1 heq =>
             left
             have hf := muc_fields s1
@@ -307,7 +307,7 @@ theorem c14_no_downgrade_holds {s : St} (h : Reach s) (op : Op) :
         by_cases hav : c.status = .available
         · simp only [hav, beq_self_eq_true, ↓reduceIte, decide_eq_true_eq]
           cases step_shape hi op with
-          | idle _ hcur _ _ => exact absurd hcur hne
+          | idle _ hcur _ _ _ => exact absurd hcur hne
           | muc s1 hb hc1 _ _ heq =>
             have hf := muc_fields s1
             rw [heq, hf.1] at hc hn
